@@ -113,6 +113,17 @@ def no_limit():
     yield
 
 
+OBSERVATIONS: dict[str, str] = {}      # key -> text; behaviour the property does not state (never a violation); flushed into ck.notes
+
+
+def observe(key: str, text: str) -> None:
+    """Round 5: record something a user might care about but C05 does not state (which classes are hashable, what
+    format(obj, '.2f') strips, the exact bits a constructor stores inside the range, repr() spelled differently from
+    str() but canonical).  A check that demands more than the property states raises a false alarm: these go to the
+    evidence as notes/histograms only."""
+    OBSERVATIONS.setdefault(key, text)
+
+
 class Pending:
     """A correspondence written as a generator: it prepares its cases, yields (jobs, name, preamble) - independent
     coq_eval jobs, evaluated here in a thread pool while the caller goes on - and receives the list of their results
@@ -512,6 +523,33 @@ def roundtrip_within_theorem(field: str, before: float, after: float) -> bool:
     return 0.0 <= after < 360.0 and (abs(q - p) <= bound or abs(q + 360 - p) <= bound)
 
 
+def other_form(found: dict, fam: str, what: str, cname: str, t2: list, parts: list, comps: tuple, circle: bool) -> None:
+    """join() / repr() of an object whose str() printed `parts` (already found canonical).  The same three texts: nothing
+    more to test.  Different texts are a violation only when they break what the property states - each component a plain
+    decimal of at most 6 places, never '-0', denoting the component to within 5e-7 (+ the rounding of float()); a different
+    but canonical spelling ('1.0' for '1') is an observation."""
+    if t2 == parts:
+        return
+    rp = {'call': what, 'cls': cname, 'xyz': [c.hex() for c in comps]}
+    x = comps[0]
+    if len(t2) != 3:
+        found.setdefault(f'{fam}-{what}-not-plain', (x, f'{what} of {cname}{comps!r} prints {t2!r}: not three components', rp))
+        return
+    for t, c in zip(t2, comps):
+        pr = text_problem(t, c)
+        if pr:
+            found.setdefault(f'{fam}-{what}-' + ('negative-zero' if pr.startswith('negative-zero') else 'not-plain'),
+                             (x, f'{what} of {cname}{comps!r} prints {t2!r} (str() prints {parts!r})', rp))
+            return
+        d = abs(float(t) - c)
+        if circle:
+            d = min(d, abs(360.0 - d))
+        if d > 5e-7 + math.ulp(c) / 2:
+            found.setdefault(f'{fam}-{what}-error', (x, f'{what} of {cname}{comps!r} prints {t2!r}: {t!r} is not within 5e-7 of {c!r}', rp))
+            return
+    observe(f'{fam}-{what}-spelled-differently-from-str', f'{what} of {cname}{comps!r} prints {t2!r}, str() prints {parts!r} (both canonical)')
+
+
 def search_text(ck: Ck) -> None:
     from srctools.math import Angle, FrozenAngle, FrozenVec, Vec, format_float, parse_vec_str
     n = ck.budget(6000, 30000)
@@ -544,11 +582,9 @@ def search_text(ck: Ck) -> None:
                     'vec-str-negative-zero' if 'negative-zero' in probs else 'vec-str-not-plain'
                 found.setdefault(key, (x, f'str({v!r}) == {txt!r}', {'call': 'str', 'cls': cls.__name__, 'xyz': [x.hex(), y.hex(), z.hex()]}))
                 continue
-            # join() and repr() print the same three numbers
+            # join() and repr() are text forms too: the same demands (canonical, reads back) on whatever they print
             for what, t2 in (('join', v.join(';').split(';')), ('repr', repr(v)[len(cls.__name__) + 1:-1].split(', '))):
-                if t2 != parts and ('vec-str-' + what + '-differs-from-str') not in found:
-                    found['vec-str-' + what + '-differs-from-str'] = (x, f'{what} of {cls.__name__}({x!r}, {y!r}, {z!r}) prints {t2!r}, str() prints {parts!r}',
-                                                                      {'call': what, 'cls': cls.__name__, 'xyz': [x.hex(), y.hex(), z.hex()]})
+                other_form(found, 'vec', what, cls.__name__, t2, parts, (x, y, z), False)
             # every bracket style, and (c05_parse_format_vec: ANY non-empty whitespace between the numbers) other separators
             for wrap, sep in (('{}', ' '), ('({})', ' '), ('[{}]', ' '), (' <{}> ', ' '), ('{{{}}}', ' '), ('{}', '  '), ('({})', '\t'), ('[ {} ]', ' \n')):
                 text = wrap.format(txt.replace(' ', sep))
@@ -570,9 +606,7 @@ def search_text(ck: Ck) -> None:
                     continue
                 back = cls.from_str(txt, 77, 77, 77)
                 for what, t2 in (('join', a.join(';').split(';')), ('repr', repr(a)[len(cls.__name__) + 1:-1].split(', '))):
-                    if t2 != parts and ('angle-str-' + what + '-differs-from-str') not in found:
-                        found['angle-str-' + what + '-differs-from-str'] = (x, f'{what} of {a!r} prints {t2!r}, str() prints {parts!r}',
-                                                                            {'call': what, 'cls': cls.__name__, 'xyz': [x.hex(), y.hex(), z.hex()]})
+                    other_form(found, 'angle', what, cls.__name__, t2, parts, tuple(a), True)
                 ck.count('angle_roundtrip_cases')
                 for p, q in zip(a, back):       # which branch of the theorem: read back directly, or 360.0 stored as 0.0
                     ck.hist('angle_roundtrip_branch', 'wrap-around 360 -> 0' if p - q > 180 else 'direct')
@@ -990,7 +1024,7 @@ class HistRunner:
                 problems.append((f'copy-is-same-object-{op[0]}-{type(src).__name__}', f'{op[0]} returned the mutable source itself', step))
         for o in regs[nregs:]:
             if type(o).__name__ in ('FrozenVec', 'FrozenAngle') and safe_hash(o) == 'UNHASHABLE':
-                problems.append((f'frozen-class-unhashable-{type(o).__name__}', f'hash() of the {type(o).__name__} returned by {op[0]} raises TypeError', step))
+                observe(f'frozen-class-unhashable-{type(o).__name__}', f'hash() of the {type(o).__name__} returned by {op[0]} raises TypeError')
         # (a) every angle in range, now and for every register
         for i, o in enumerate(regs):
             if isang(o) and finite_obj(o):
@@ -1442,15 +1476,20 @@ def ctor_case(cname: str, form: str, v: list, k: int, limit=None) -> list[tuple[
     if raw is not None:
         exp = tuple(norm360(x) for x in raw) if fam == 'ang' else tuple(float(x) for x in raw)
         if hexes(exp) != hexes(got):
-            out.append((f'{"angle" if fam == "ang" else "vec"}-ctor-wrong-value-{form}-{cname}', f'{what} holds {got!r}, the components given are {exp!r}'))
-        else:
-            # equal to, and (frozen) hashing like, the same value built from three floats
-            ref = C(*exp)
-            if not (o == ref) or (o != ref) or not (o == exp) or not (ref == o):
-                out.append((f'ctor-not-equal-to-same-value-{form}-{cname}', f'{what} == {ref!r} is false'))
+            if form in COPY_FORMS[fam]:
+                # the argument is an existing object of the same family: the result is a copy and must hold its value
+                out.append((f'{"angle" if fam == "ang" else "vec"}-ctor-wrong-value-{form}-{cname}', f'{what} holds {got!r}, the source holds {exp!r}'))
+            else:
+                # built from numbers: C05 states the RANGE of what an angle reports (tested above), not the bits stored
+                observe(f'ctor-value-differs-from-float-{form}-{cname}', f'{what} holds {got!r}; float(x){" % 360.0 % 360.0" if fam == "ang" else ""} of the components given is {exp!r}')
+        # equal to, and (frozen) hashing like, the same value built from three floats
+        ref = C(*got)
+        if hexes(raw_slots(ref)) == hexes(got):
+            if not (o == ref) or (o != ref) or not (o == got) or not (ref == o):
+                out.append((f'ctor-not-equal-to-same-value-{form}-{cname}', f'{what} == {ref!r} is false although all slots are identical'))
             if is_frozen(o) and safe_hash(o) == 'UNHASHABLE':
-                return [(f'frozen-class-unhashable-{cname}', f'hash() of {what} raises TypeError')]
-            if is_frozen(o) and hash(o) != hash(ref):
+                observe(f'frozen-class-unhashable-{cname}', f'hash() of {what} raises TypeError')
+            elif is_frozen(o) and hash(o) != hash(ref):
                 out.append((f'frozen-hash-differs-for-same-value-constructed-{cname}', f'hash of {what} differs from hash({ref!r})'))
     if out:
         return out
@@ -1480,6 +1519,9 @@ def ctor_case(cname: str, form: str, v: list, k: int, limit=None) -> list[tuple[
             out.append((f'source-changed-by-{pname}-{cname}', f'{pname} changed {what} from {got!r} to {raw_slots(o)!r}'))
     return out
 
+
+# constructor forms whose argument is an existing object of the SAME family: the result is a copy of it
+COPY_FORMS = {'vec': {'vec', 'fvec', 'vec_and_defaults', 'from_str_vec'}, 'ang': {'angle', 'fangle', 'angle_and_defaults', 'from_str_angle'}}
 
 # constructor forms that call the constructor directly with an argument of one form of Num/AngleCtor.v (None: depends on the class)
 FORM_TO_ARGFORM = {'floats': 'FNumber', 'numbers': 'FNumber', 'one': 'FNumber', 'two': 'FNumber', 'kw': 'FNumber', 'pos_kw': 'FNumber',
@@ -1631,7 +1673,7 @@ def search_frozen_keys(ck: Ck) -> None:
     for o in (M.Vec(1, 2, 3), M.Angle(1, 2, 3), M.Matrix()):
         try:
             hash(o)
-            found[f'mutable-class-hashable-{type(o).__name__}'] = (f'hash({o!r}) works although the value can change', {'call': 'hash', 'cls': type(o).__name__})
+            observe(f'mutable-class-hashable-{type(o).__name__}', f'hash({o!r}) works although the value can change')
         except TypeError:
             pass
     n = ck.budget(400, 4000)
@@ -1653,7 +1695,7 @@ def search_frozen_keys(ck: Ck) -> None:
                 try:
                     hash(a)
                 except TypeError as e:
-                    found.setdefault(f'frozen-class-unhashable-{cls.__name__}', (f'hash({a!r}) raises {e}', {'call': 'hash', 'cls': cls.__name__, 'values': hexes(v)}))
+                    observe(f'frozen-class-unhashable-{cls.__name__}', f'hash({a!r}) raises {e}')
                     continue
                 ck.count('hash_cases')
                 if any(c != round(c) for c in raw_slots(a)):
@@ -1783,8 +1825,9 @@ def format_spec_case(cname: str, v: list, spec: str) -> list[tuple[str, str]]:
                 # has no user format spec; format(v, '.3f') follows Python's format() of the float, which keeps the sign.
                 continue
             if not re.fullmatch(r'-?[0-9]+(\.[0-9]*[1-9])?', t):
-                out.append((f'{fam}-format-spec-f-not-plain', f'format({o!r}, {spec!r}) = {txt!r}: {t!r} is not a plain decimal without trailing zeros'))
-                break
+                # An observation as well: that __format__ strips trailing zeros is today's behaviour, not a clause of C05
+                # (the value it denotes is compared above).
+                observe(f'{fam}-format-spec-f-not-plain', f'format({o!r}, {spec!r}) = {txt!r}: {t!r} is not a plain decimal without trailing zeros')
     return out
 
 
@@ -1987,6 +2030,7 @@ def run(ck: Ck) -> None:
                        'only the public API is used (no writes to underscore slots, no direct calls of dunder/underscore helpers)',
                        "Python's format(float, spec) is taken as given: only what __format__ does to its output is modelled",
                        'a call into the implementation that uses more than 20 s of CPU time is treated as not terminating']
+    OBSERVATIONS.clear()
     ok_t = ck.translate('AngleSites_gen', c05_sites.translate)
     side = ck.extra.get('translated', {}).get('AngleSites_gen', {})
     built = ok_t and ck.build(['Gen/AngleSites_gen.vo', 'Props/C05.vo'])
@@ -2030,7 +2074,7 @@ def run(ck: Ck) -> None:
             'ne_is_the_negation_of_eq': 'ne_is_negation_of_eq',
             'whole_property_hypotheses_hold': 'c05_source_ok {| s_sites := angle_sites; s_creations := angle_creations; s_ctors := angle_ctors; '
                                               's_ctor_rows := angle_ctor_rows; s_events := mut_events; s_results := result_kinds; s_shapes := copy_shapes; '
-                                              's_hash := hash_kinds; s_inplace := inplace_rows; s_fmt := format_float_cfg; s_parse := parse_vec_cfg; '
+                                              's_hash := hash_kinds; s_inplace := inplace_rows; s_eq := eq_shapes; s_fmt := format_float_cfg; s_parse := parse_vec_cfg; '
                                               's_vspec := vec_spec_cfg; s_aspec := angle_spec_cfg |}',
             'no_write_through_unknown_or_aliased_object': 'forallb (fun e : mut_event => match snd (fst e) with Unknown | MaybeAlias | Param => helper (snd (fst (fst e))) | _ => true end) mut_events',
         })
@@ -2043,7 +2087,7 @@ def run(ck: Ck) -> None:
         if built:
             pend.append(Pending(ck, corr_format_spec(ck, side), pool))
         info = pool.submit(ck.coq_eval, IMPORTS, ['bad_events no_carve mut_events', 'bad_results result_kinds', 'bad_creations angle_creations',
-                                                  'neg_zero_fix format_float_cfg', 'bad_shapes copy_shapes', 'bad_ctor_rows angle_ctor_rows', 'bad_hash_rows hash_kinds', 'bad_eq_rows eq_shapes'], 'info', 600, 'Import ListNotations.') if built else None
+                                                  'neg_zero_fix format_float_cfg', 'bad_shapes copy_shapes', 'bad_ctor_rows angle_ctor_rows', 'bad_hash_rows hash_kinds', 'bad_eq_rows eq_shapes', 'hash_conventions hash_kinds'], 'info', 600, 'Import ListNotations.') if built else None
         escalated = bool(ck.tie_broken)
         frames = guarded(ck, search_histories, [])
         if built:
@@ -2065,6 +2109,11 @@ def run(ck: Ck) -> None:
             ck.extra['offending_census_entries'] = {'mut_events': v[0], 'result_kinds': v[1], 'angle_creations': v[2], 'copy_shapes': v[4],
                                                      'angle_ctor_rows (constructor, argument form)': v[5], 'hash_kinds': v[6], 'eq_shapes': v[7]}
             ck.extra['format_float_has_negative_zero_repair (carve-out of c05_format6_shape empty when true)'] = v[3]
+            # an observation, not an obligation: C05 does not state which classes are hashable
+            ck.extra['observation: hash_conventions (mutable classes unhashable, FrozenVec/FrozenAngle hash by value)'] = v[8]
+            if str(v[8]).strip() != 'true':
+                ck.notes.append('observation (outside C05): the hash conventions of the pinned tree no longer hold (a mutable class is hashable, '
+                                'or FrozenVec/FrozenAngle is not): hash_conventions hash_kinds = ' + str(v[8]).strip())
         if finish_theorems is not None:
             finish_theorems()
     if ck.tie_broken and not escalated:
@@ -2075,6 +2124,9 @@ def run(ck: Ck) -> None:
         guarded(ck, search_frozen_keys)
         guarded(ck, search_format_spec)
         guarded(ck, search_text)
+    for key in sorted(OBSERVATIONS)[:12]:
+        ck.hist('observations_outside_the_property', key)
+        ck.notes.append(f'observation (outside C05) {key}: {OBSERVATIONS[key]}'[:400])
     explain_failures(ck)
 
 
@@ -2103,7 +2155,7 @@ def explain_failures(ck: Ck) -> None:
     """Failed obligations are explained only by a concrete, replayable violation of the matching kind (a KNOWN '-0'
     finding explains nothing: it leaves no obligation failing)."""
     keys = {v['key'] for v in ck.violations}
-    text = [k for k in keys if k.startswith(('format-float-', 'vec-str-', 'angle-str-')) and not k.endswith('-negative-zero')]
+    text = [k for k in keys if k.startswith(('format-float-', 'vec-str-', 'angle-str-', 'vec-join-', 'vec-repr-', 'angle-join-', 'angle-repr-')) and not k.endswith('-negative-zero')]
     if text:
         for o in ('instance:format_float_pipeline_recognised', 'instance:format_float_pipeline_ok_up_to_negative_zero',
                   'instance:format_float_places_is_6', 'instance:format_float_strips_zeros', 'instance:str_and_join_use_format_float',
